@@ -392,7 +392,7 @@ def _gen_lifecycle_program(rng, tier):
     cfg = gen_policy(rng, with_cats=False, disabled=disabled)
     if cfg.get("deprecated") in (["auto"], "auto") or True:
         pass
-    marker = rng.choice([None, None, "!", "*"]) if disabled == "unix_disabled" else None
+    marker = rng.choice([None, None, "!", "*", "*LK*", "!!", "*NP*"]) if disabled == "unix_disabled" else None
     if marker:
         cfg["unix_disabled__marker"] = marker
     real = [s for s in cfg["schemes"] if s != disabled]
